@@ -45,7 +45,7 @@ Locators == ({[x |-> x, m |-> m] : x \in Specs, m \in Mods} \ {[x |-> [k |-> "al
 LocSeq == SetToSeq(Locators)
 NB == (Len(LocSeq) + Batch - 1) \div Batch
 All == SetToSeq({<<ti, tp, b>> : ti \in 1..Len(Tables), tp \in 1..2, b \in 1..NB})
-Picked == SelectSeq([j \in 1..Len(All) |-> j], LAMBDA j : j % Stride = Offset % Stride)
+Picked == SelectSeq([j \in 1..Len(All) |-> j], LAMBDA j : (j + (j \div Stride) + (j \div (Stride * Stride))) % Stride = Offset % Stride)
 Topos == <<"linear", "circular">>
 
 CaseJson(j) ==
